@@ -472,6 +472,22 @@ func c19RandomType(g *rng.R, depth int) reflect.Type {
 func c19Case(r *evid.Run, tier string, idx int, g *rng.R) {
 	o := adoc.GenOpts{MinNodes: 8, MaxNodes: 40, NS: g.Intn(2), Misc: g.P(40), NumericText: true}
 	d := adoc.Generate(g, o)
+	// one case in thirty: an element with 1000..2000 children, so that slice targets get thousands of elements
+	var wide *adoc.Node
+	if idx%30 == 7 {
+		wide = rng.Pick(g, d.Elements())
+		for k, n := 0, g.Range(1000, 2000); k < n; k++ {
+			c := d.AddElem(wide, "", rng.Pick(g, []string{"item", "item", "a", "b"}))
+			if g.P(60) {
+				d.AddText(c, fmt.Sprint(g.Intn(100)))
+			}
+			if g.P(10) {
+				d.AddAttr(c, "", "id", fmt.Sprint(k))
+			}
+		}
+		d.Finish()
+		r.Count("cases_with_a_wide_element", 1)
+	}
 	w, err := newWorld(d)
 	if err != nil {
 		r.Inconclusive("store tree mismatch: " + err.Error())
@@ -487,6 +503,10 @@ func c19Case(r *evid.Run, tier string, idx int, g *rng.R) {
 	if tier == "thorough" {
 		nrand = 12
 	}
+	if wide != nil {
+		// catalogue types only: random tag expressions over thousands of context nodes cost minutes
+		nrand = 0
+	}
 	for i := 0; i < nrand; i++ {
 		types = append(types, c19RandomType(g, 0))
 	}
@@ -494,6 +514,12 @@ func c19Case(r *evid.Run, tier string, idx int, g *rng.R) {
 	for _, t := range types {
 		for rep := 0; rep < 3; rep++ {
 			node := rng.Pick(g, elemsOnly)
+			if wide != nil {
+				if rep > 0 {
+					break
+				}
+				node = wide
+			}
 			cur := w.m.ToC[node]
 			c := &c19Ctx{opts: opts}
 			// target: pointer chain of depth 1..3 to a pre-filled struct
